@@ -15,7 +15,7 @@ import Flussab.Proof.Btor2ParserSafe
 
 namespace Flussab
 namespace Btor2
-open PM
+open PM Lines
 
 variable {E : PErr → LR → Prop}
 
@@ -138,6 +138,92 @@ theorem nextLine_ws_exact {lr : LR} (l : Line) (hwf : l.wf = true) (ws T : VByte
   refine (nextLineRest_exact l hwf r1 (by rw [d.line]; omega) (by rw [d.pos]; omega)).mono ?_
   intro r lr2 ⟨hres, le⟩
   exact ⟨hres, by rw [le.rest, r1]; exact drop_writeLine l T⟩
+
+/-- The lines collected so far stay in front. -/
+theorem driveLines_acc_prefix (fuel : Nat) : ∀ (acc : List Line) (lr : LR),
+    acc.reverse <+: (driveLines fuel acc lr).1 := by
+  induction fuel with
+  | zero => intro acc lr; simp [driveLines]
+  | succ fuel ih =>
+    intro acc lr
+    unfold driveLines
+    rcases nextLine.run lr with ⟨r, lr'⟩
+    cases r with
+    | error e => simp
+    | ok o =>
+      cases o with
+      | none => simp
+      | some x =>
+        simp only
+        refine List.IsPrefix.trans ?_ (ih (x :: acc) lr')
+        simp
+
+/-- **Prefix monotonicity for handed-out lines**: `lrA` reads `b` from a failing source, `lrB` reads
+`b ++ more` from a source that does not fail, both at the same place. -/
+theorem driveLines_prefix (b more : VBytes) (hsize : (b ++ more).length < 2 ^ 62) :
+    ∀ (fuelA fuelB : Nat) (acc : List Line) (lrA lrB : LR),
+    Inv b true lrA → Inv (b ++ more) false lrB → lrB.v.rest = lrA.v.rest ++ more →
+    lrB.v.rest.length < fuelB →
+    (driveLines fuelA acc lrA).1 <+: (driveLines fuelB acc lrB).1 := by
+  intro fuelA
+  induction fuelA with
+  | zero => intro fuelB acc lrA lrB _ _ _ _; simpa [driveLines] using driveLines_acc_prefix fuelB acc lrB
+  | succ fA ih =>
+    intro fuelB acc lrA lrB hA hB hrel hfB
+    obtain ⟨okA, _⟩ := (nextLine_ok hA).of_run
+    rcases hrunA : nextLine.run lrA with ⟨r, lrA'⟩
+    cases r with
+    | error e => rw [driveLines, hrunA]; exact driveLines_acc_prefix fuelB acc lrB
+    | ok o =>
+      cases o with
+      | none => rw [driveLines, hrunA]; exact driveLines_acc_prefix fuelB acc lrB
+      | some l =>
+        rw [driveLines, hrunA]
+        simp only
+        obtain ⟨⟨iA', _, _⟩, _⟩ := okA (some l) lrA' hrunA
+        have hwf : l.wf = true := (nextLine_val (lr := lrA)).of_run.1 (some l) lrA' hrunA l rfl
+        obtain ⟨ws, hws, hplain, hcomment⟩ := (nextLine_c (lr := lrA)).of_run.1 (some l) lrA' hrunA l rfl
+        -- the same text in front of `lrB`, followed by `T`
+        obtain ⟨T, hT, hBtext⟩ : ∃ T, (if l.endsInComment then [10] else []) ++ T = lrA'.v.rest ++ more ∧
+            lrB.v.rest = ws ++ (writeLine l ++ T) := by
+          cases hc : l.endsInComment with
+          | false =>
+            have hs := hplain hc
+            unfold Step at hs
+            exact ⟨lrA'.v.rest ++ more, by simp, by rw [hrel, hs]; simp⟩
+          | true =>
+            obtain ⟨hs, hend⟩ := hcomment hc
+            unfold Step at hs
+            rcases hend with h10 | ⟨hnil, hse, hio⟩
+            · obtain ⟨R, hR⟩ : ∃ R, lrA'.v.rest = 10 :: R := by
+                cases hr : lrA'.v.rest with
+                | nil => rw [hr] at h10; simp at h10
+                | cons y R => rw [hr] at h10; simp at h10; exact ⟨R, by rw [h10]⟩
+              refine ⟨R ++ more, by rw [hR]; simp, ?_⟩
+              rw [hrel, hs, hR]; simp [writeLine]
+            · -- a failing source whose end was observed has its error parked: not handed out
+              have := iA'.finv.1 iA'.fault hse
+              rw [hio] at this; exact absurd this (by simp)
+        -- `lrB` makes the same step
+        obtain ⟨hs1, hs2⟩ := lineAt_le (b ++ more) _ _ hB.online.lineAt
+        have hBlen := hB.rest_length
+        have hBpos := hB.pos_le
+        have hwsl : ws.count 10 ≤ lrB.v.rest.length := by
+          have h1 : ws.count 10 ≤ ws.length := List.count_le_length
+          have h2 : ws.length ≤ lrB.v.rest.length := by rw [hBtext]; simp
+          omega
+        obtain ⟨rB, lrB', hrunB, hresB, hrestB⟩ := run_of_wp_false
+          (nextLine_ws_exact l hwf ws T hws hBtext (by unfold usizeMax; omega) (by unfold usizeMax; omega))
+        subst hresB
+        obtain ⟨okB, _⟩ := (nextLine_ok hB).of_run
+        obtain ⟨⟨iB', _, hprog⟩, _⟩ := okB (some l) lrB' hrunB
+        have hlt := Base.rest_lt hB.toBase iB'.toBase (hprog rfl)
+        cases fuelB with
+        | zero => omega
+        | succ fB =>
+          rw [driveLines, hrunB]
+          simp only
+          exact ih fB (l :: acc) lrA' lrB' iA' iB' (by rw [hrestB, hT]) (by omega)
 
 end Btor2
 end Flussab
